@@ -243,6 +243,42 @@ func tmParseWith(nonterm bool) func(ctx context.Context, in string, rec *recorde
 	}
 }
 
+// persistent objects for the reuse oracle
+func tmSession() func(ctx context.Context, in string, rec *recorder) (string, error) {
+	var s tm.TokenStream
+	var p tm.Parser
+	return func(ctx context.Context, in string, rec *recorder) (string, error) {
+		l := func(t tm.NodeType, off, end int) { rec.Event(int(t), 0, off, end) }
+		eh := func(se tm.SyntaxError) bool { return rec.ErrH(se.Line, se.Offset, se.Endoffset) }
+		s.Init(in, l)
+		p.Init(eh, l)
+		return "", p.ParseFile(ctx, &s)
+	}
+}
+
+func jsSession() func(ctx context.Context, in string, rec *recorder) (string, error) {
+	var s js.TokenStream
+	var p js.Parser
+	return func(ctx context.Context, in string, rec *recorder) (string, error) {
+		l := func(t js.NodeType, off, end int) { rec.Event(int(t), 0, off, end) }
+		eh := func(se js.SyntaxError) bool { return rec.ErrH(se.Line, se.Offset, se.Endoffset) }
+		s.Init(in, l)
+		s.SetDialect(js.Typescript)
+		p.Init(eh, l)
+		return "", p.ParseModule(ctx, &s)
+	}
+}
+
+func testSession() func(ctx context.Context, in string, rec *recorder) (string, error) {
+	var l tst.Lexer
+	var p tst.Parser
+	return func(ctx context.Context, in string, rec *recorder) (string, error) {
+		l.Init(in)
+		p.Init(func(t tst.NodeType, flags tst.NodeFlags, off, end int) { rec.Event(int(t), int(flags), off, end) })
+		return "", p.ParseTest(ctx, &l)
+	}
+}
+
 func tmTreeHash(t *tmast.Tree) string {
 	if t == nil {
 		return "<nil tree>"
@@ -398,6 +434,8 @@ var jsCorpus = &corpus{
 		{open: "(", sep: "/*c*/", core: "x", close: ")", tail: ";"},
 		{open: "[", sep: " /*c*/ ", core: "1", close: "]", tail: ";"},
 		{open: "-", sep: " /*c*/ ", core: "1", close: "", tail: ";"},
+		{head: "x = `a", open: "${b}c", sep: "", core: "", close: "", tail: "`;"},
+		{head: "x = a", open: " + b", sep: " /*c*/", core: "", close: "", tail: ";"},
 	},
 	sep: "\n",
 	items: []string{
@@ -583,21 +621,21 @@ func initTargets() {
 	droppedItems["test"] = testCorpus.validate(testTokenEnds, okWith(testParse))
 
 	if len(tmCorpus.items) > 0 {
-		register(&Target{Name: "tm.Parser.ParseFile", Parse: tmParseWith(false), TokenEnds: tmTokenEnds, Gen: tmCorpus.gen, HasEH: true, Events: true, Weight: 10})
+		register(&Target{Name: "tm.Parser.ParseFile", NewSession: tmSession, Parse: tmParseWith(false), TokenEnds: tmTokenEnds, Gen: tmCorpus.gen, HasEH: true, Events: true, Weight: 10})
 		if okWith(tmParseWith(true))(genTmNonterm(sim.NewSearch(1, 1), 60)) {
 			register(&Target{Name: "tm.Parser.ParseNonterm", Parse: tmParseWith(true), TokenEnds: tmTokenEnds, Gen: plain(genTmNonterm), HasEH: true, Events: true, Weight: 4})
 		}
 		register(&Target{Name: "tm/ast.Parse", Parse: tmParseAST, TokenEnds: tmTokenEnds, Gen: tmCorpus.gen, HasEH: true, Weight: 5})
 	}
 	if len(jsCorpus.items) > 0 {
-		register(&Target{Name: "js.Parser.ParseModule", Parse: jsParse, TokenEnds: jsTokenEnds, Gen: jsCorpus.gen, HasEH: true, Events: true, Lookaheads: true, Weight: 24})
+		register(&Target{Name: "js.Parser.ParseModule", NewSession: jsSession, Parse: jsParse, TokenEnds: jsTokenEnds, Gen: jsCorpus.gen, HasEH: true, Events: true, Lookaheads: true, Weight: 24})
 		register(&Target{Name: "js/ast.Parse", Parse: jsParseAST, TokenEnds: jsTokenEnds, Gen: jsCorpus.gen, HasEH: true, Lookaheads: true, Weight: 8})
 	}
 	if len(jsExprCorpus.items) > 0 {
 		register(&Target{Name: "js.Parser.ParseExpressionSnippet", Parse: jsParseExpr, TokenEnds: jsTokenEnds, Gen: jsExprCorpus.gen, HasEH: true, Events: true, Lookaheads: true, Weight: 6})
 	}
 	if len(testCorpus.items) > 0 {
-		register(&Target{Name: "test.Parser.ParseTest", Parse: testParse, TokenEnds: testTokenEnds, Gen: testCorpus.gen, Events: true, Lookaheads: true, Weight: 14})
+		register(&Target{Name: "test.Parser.ParseTest", NewSession: testSession, Parse: testParse, TokenEnds: testTokenEnds, Gen: testCorpus.gen, Events: true, Lookaheads: true, Weight: 14})
 		register(&Target{Name: "test.Parser.ParseDecl1", Parse: testParseDecl1, TokenEnds: testTokenEnds, Gen: plain(genDecl1), Events: true, Weight: 4})
 	}
 	initGenerated()
@@ -606,7 +644,12 @@ func initTargets() {
 // registerGenerated plugs a freshly generated parser (see /verif/driver/genbatch.go) into
 // the target list. Its corpus is validated with the parser itself, like the shipped ones.
 func registerGenerated(name string, parse func(ctx context.Context, in string, ev func(t, flags, off, end int), eh func(line, off, end int) bool) error,
+	newSession func() func(ctx context.Context, in string, ev func(t, flags, off, end int), eh func(line, off, end int) bool) error,
 	ends func(string) []int, c *corpus, deep [][6]string, hasEH, lookaheads bool) {
+	sess := func() func(ctx context.Context, in string, rec *recorder) (string, error) {
+		f := newSession()
+		return func(ctx context.Context, in string, rec *recorder) (string, error) { return "", f(ctx, in, rec.Event, rec.ErrH) }
+	}
 	for _, d := range deep {
 		c.deep = append(c.deep, deepShape{d[0], d[1], d[2], d[3], d[4], d[5]})
 	}
@@ -617,5 +660,5 @@ func registerGenerated(name string, parse func(ctx context.Context, in string, e
 	if len(c.items) == 0 {
 		return
 	}
-	register(&Target{Name: name, Parse: p, TokenEnds: ends, Gen: c.gen, HasEH: hasEH, Events: true, Lookaheads: lookaheads, Weight: 9})
+	register(&Target{Name: name, NewSession: sess, Parse: p, TokenEnds: ends, Gen: c.gen, HasEH: hasEH, Events: true, Lookaheads: lookaheads, Weight: 9})
 }
